@@ -4,7 +4,7 @@ import ast
 
 from ..astq import is_name, is_self_attr, returns_of, compare_normal
 from ..cfg import CFG
-from ..core import AnalysisError, norm, walk_local
+from ..core import order, AnalysisError, norm, walk_local
 from ..xform import query as Q
 from ..xform.terms import (Copy, GenericVisit, Ident, In, InList, Lib, Node, Raise, Rec, Star, SymStr, Visit, children, walk)
 
@@ -206,15 +206,13 @@ def run(repo, chk):
         elif isinstance(a, ast.List) and len(a.elts) == 2 and all(isinstance(e, ast.Starred) for e in a.elts):
             ok = norm(a.elts[0].value) == "self.handler_pairs" and is_name(a.elts[1].value, param)
     chk.ob("R04.5", "overlay.HandlerCollection.plus:new-pairs-after-existing", ok, pl.where, "plus places the newly activated pairs after the existing ones")
-    pr = repo.func("overlay.HandlerCollection.proceed")
-    muts = [norm(c.func) for c in ast.walk(pr.node) if isinstance(c, ast.Call) and isinstance(c.func, ast.Attribute) and norm(c.func.value) == "next_selectors"]
-    loops = [n for n in walk_local(pr.node) if isinstance(n, ast.For) and norm(n.iter) == "self.handler_pairs"]
-    chk.ob("R04.5", "overlay.HandlerCollection.proceed:order-preserving", set(muts) <= {"next_selectors.append", "next_selectors.extend"} and len(loops) == 1 and bool(muts), pr.where,
-           f"the inner collection is filled in the iteration order of the current pairs ({sorted(set(muts))})")
-    rv = [n for n in walk_local(pr.node) if isinstance(n, ast.Assign) and any(is_name(t, "rval") for t in n.targets)]
-    ok = len(rv) == 1 and isinstance(rv[0].value, ast.Call) and len(rv[0].value.args) == 1 and is_name(rv[0].value.args[0], "next_selectors")
-    ext = [c for c in ast.walk(pr.node) if isinstance(c, ast.Call) and isinstance(c.func, ast.Attribute) and c.func.attr == "extend" and "selector.children" in norm(c)]
-    ok = ok and len(ext) == 1 and norm(ext[0].func.value) == "next_selectors"
+    from .proceed_shape import proceed_shape
+    P = proceed_shape(repo)
+    pr = P.pr
+    ok = P.inner is not None and len(P.keeps) == 1 and len(P.pushes) == 1 and not P.others and len(P.inits) == 1
+    chk.ob("R04.5", "overlay.HandlerCollection.proceed:order-preserving", ok, pr.where,
+           f"the inner collection is filled by appending, in the iteration order of the current pairs (other uses of the list: {[norm(getattr(o, '_parent', o)) for o in P.others][:3]})")
+    ok = ok and order(P.keeps[0]) < order(P.pushes[0]) and all(any(c is x for x in ast.walk(P.loop)) for c in P.keeps + P.pushes)
     chk.ob("R04.5", "overlay.HandlerCollection.proceed:children-inserted-at-owner-position", ok, pr.where,
            "the children of a matching selector go into the same ordered list, at the position of their owner: an older call-path override stays older than a newer flat one in the callee "
            "(a separate list appended at the end would reverse 'most recently activated wins')")
